@@ -13,6 +13,7 @@ import (
 	"sort"
 	"strings"
 	"sync"
+	"sync/atomic"
 	"testing"
 	"testing/synctest"
 	"time"
@@ -21,6 +22,7 @@ import (
 	"github.com/aws/aws-sdk-go-v2/credentials"
 	"github.com/aws/aws-sdk-go-v2/service/s3"
 	"github.com/tailscale/setec/server"
+	"github.com/tink-crypto/tink-go/v2/tink"
 	"pgregory.net/rapid"
 	"verifharness/dbx"
 	"verifharness/h"
@@ -108,7 +110,22 @@ type BackupCase struct {
 	Writes  []int    `json:"writes"`   // instants of database writes, in units of 100ms (+50ms)
 	CancelS int      `json:"cancel_s"` // the server context is cancelled at this second (+20ms)
 	OffsetS int      `json:"offset_s"` // the loop starts this many seconds (+7ms) after a whole minute of the (virtual) wall clock
+	// kind of the i-th write (missing = put): put | putbig (a value of 1.2 MiB) | activate | delver | del.
+	// A write that cannot be made in the state at hand (nothing to activate or delete) is made a put.
+	Kinds []string `json:"kinds,omitempty"`
 }
+
+// c17KEK counts the uses of the key-encryption key in the backup scenarios (C05 looks at it).
+type c17KEK struct {
+	inner tink.AEAD
+	calls atomic.Int64
+}
+
+func (k *c17KEK) Encrypt(pt, ad []byte) ([]byte, error) { k.calls.Add(1); return k.inner.Encrypt(pt, ad) }
+func (k *c17KEK) Decrypt(ct, ad []byte) ([]byte, error) { k.calls.Add(1); return k.inner.Decrypt(ct, ad) }
+
+// kekAfterOpen is set by every run of runC17Bubble: uses of the key-encryption key after Open returned.
+var kekAfterOpen atomic.Int64
 
 const retryWithin = 3 * time.Minute
 
@@ -126,10 +143,13 @@ func runC17(t *testing.T, c BackupCase) (v *h.Violation, info h.Info) {
 func runC17Bubble(dir string, c BackupCase, info *h.Info) *h.Violation {
 	p := filepath.Join(dir, "db")
 	key := dbx.DummyKey()
-	d, err := dbx.OpenDiscard(p, key)
+	counting := &c17KEK{inner: key}
+	d, err := dbx.OpenDiscard(p, counting)
 	if err != nil {
 		return h.V("harness", "open: %v", err)
 	}
+	kekAtOpen := counting.calls.Load()
+	defer func() { kekAfterOpen.Store(counting.calls.Load() - kekAtOpen) }()
 	if c.OffsetS > 0 {
 		time.Sleep(time.Duration(c.OffsetS)*time.Second + 7*time.Millisecond) // the bubble's clock starts on a whole minute
 		info.Class("started-off-the-minute")
@@ -167,8 +187,40 @@ func runC17Bubble(dir string, c BackupCase, info *h.Info) *h.Violation {
 			if time.Since(t0) >= cancelAt {
 				return
 			}
-			if _, err := d.Put(su.DB(), "k", []byte(fmt.Sprintf("v%d-%d", i, w))); err != nil {
-				return
+			kind := "put"
+			if i < len(c.Kinds) {
+				kind = c.Kinds[i]
+			}
+			done := false
+			switch kind {
+			case "activate":
+				if in, err := d.Info(su.DB(), "k"); err == nil && len(in.Versions) > 0 && in.Versions[len(in.Versions)-1] != in.ActiveVersion {
+					done = d.Activate(su.DB(), "k", in.Versions[len(in.Versions)-1]) == nil
+				}
+			case "delver":
+				if in, err := d.Info(su.DB(), "k"); err == nil {
+					for _, v := range in.Versions {
+						if v != in.ActiveVersion {
+							done = d.DeleteVersion(su.DB(), "k", v) == nil
+							break
+						}
+					}
+				}
+			case "del":
+				if _, err := d.Info(su.DB(), "k"); err == nil { // deleting an absent secret succeeds without writing
+					done = d.Delete(su.DB(), "k") == nil
+				}
+			case "putbig":
+				_, err := d.Put(su.DB(), "big", bytes.Repeat([]byte(fmt.Sprintf("%d-%d|", i, w)), 1200000/8))
+				done = err == nil
+				info.Class("database-file-larger-than-1MiB")
+			}
+			if !done {
+				if _, err := d.Put(su.DB(), "k", []byte(fmt.Sprintf("v%d-%d", i, w))); err != nil {
+					return
+				}
+			} else if kind != "putbig" {
+				info.Class("last-write-kind-" + kind)
 			}
 			vmu.Lock()
 			writeTimes = append(writeTimes, time.Since(t0))
@@ -320,17 +372,44 @@ func genBackupCase(rt *rapid.T) BackupCase {
 	}
 	sort.Ints(ws)
 	c.Writes = ws
+	if rapid.IntRange(0, 1).Draw(rt, "kinds") == 0 {
+		pool := []string{"put", "put", "activate", "delver", "delver", "del"}
+		if rapid.IntRange(0, 5).Draw(rt, "big") == 0 {
+			pool = append(pool, "putbig") // (costly: every later save rewrites more than a megabyte)
+		}
+		c.Kinds = rapid.SliceOfN(rapid.SampledFrom(pool), len(ws), len(ws)).Draw(rt, "writekinds")
+	}
 	return c
 }
 
 var c17 = &h.Campaign[BackupCase]{
 	Prop: "C17", Sub: "backup",
-	Rule: "rapid + testing/synctest: timelines over virtual time of database writes (single, bursts, long idle gaps, during uploads), an upload outcome script (ok / HTTP 403 / network error / slow then ok / hangs until the request context ends) served by an in-memory HTTP client behind a real s3.Client, and cancellation at a generated instant; the real periodic backup loop runs through the build-tagged hook; every database file version is snapshotted by the harness; a pending change (failed upload, or a write after the last attempt) must be attempted again within three minutes - the check's reading of 'is retried', for which the property gives no bound; a watchdog outside the bubble reports a loop that stays runnable without virtual progress (>= 10 samples over >= 2 s real time); non-trivial = timeline with an idle gap > 1 minute, a failed upload, or a write racing an upload; distinct by timeline",
+	Rule: "rapid + testing/synctest: timelines over virtual time of database writes (puts, activations, delete-versions, deletes, a 1.2 MiB value; single, bursts, long idle gaps, during uploads), an upload outcome script (ok / HTTP 403 / network error / slow then ok / hangs until the request context ends) served by an in-memory HTTP client behind a real s3.Client, and cancellation at a generated instant; the real periodic backup loop runs through the build-tagged hook; every database file version is snapshotted by the harness; a pending change (failed upload, or a write after the last attempt) must be attempted again within three minutes - the check's reading of 'is retried', for which the property gives no bound; a watchdog outside the bubble reports a loop that stays runnable without virtual progress (>= 10 samples over >= 2 s real time); non-trivial = timeline with an idle gap > 1 minute, a failed upload, or a write racing an upload; distinct by timeline",
 	Quick: 1500, Thorough: 600000,
 	Gen:   genBackupCase,
 	Run:   runC17,
 }
 
-func init() { c17.Register(); log.SetOutput(io.Discard) }
+// C05 (the backup task's share): "the key-encryption key is consulted only when the database is
+// opened or created ... so a running server does not depend on the key service" - the periodic
+// backup is part of the running server. The same timelines as C17; only the key counter is judged.
+var c05backup = &h.Campaign[BackupCase]{
+	Prop: "C05", Sub: "backup-needs-no-kek",
+	Rule: "rapid + testing/synctest: the C17 backup timelines (writes of every kind, upload outcomes, cancellation) run with a counting key-encryption key; after Open has returned the key must not be used again by the backup task or anything else; non-trivial = at least one write and a task that lived longer than a minute; distinct by timeline",
+	Quick: 300, Thorough: 20000,
+	Gen:   genBackupCase,
+	Run: func(t *testing.T, c BackupCase) (*h.Violation, h.Info) {
+		_, info := runC17(t, c) // what C17 itself has to say is reported by C17's own campaign
+		info.NonTrivial = len(c.Writes) > 0 && c.CancelS >= 61
+		if n := kekAfterOpen.Load(); n != 0 {
+			return h.V("kek-only-at-open", "with the periodic backup running (script %v, %d writes, cancelled after %ds) the key-encryption key was used %d time(s) after Open had returned", c.Script, len(c.Writes), c.CancelS, n), info
+		}
+		return nil, info
+	},
+}
+
+func TestC05BackupNeedsNoKEK(t *testing.T) { c05backup.Check(t) }
+
+func init() { c17.Register(); c05backup.Register(); log.SetOutput(io.Discard) }
 
 func TestC17Backup(t *testing.T) { c17.Check(t) }
